@@ -35,6 +35,11 @@ def term_text(t, rnd=None):
         return t[1]
     if k == 'F':
         return atom_text(t[1]) + '(' + ','.join(term_text(a) for a in t[2]) + ')'
+    if k == 'NF':
+        # the grammar's `atom` includes NUMERAL: a structure named by a numeral
+        return t[1] + '(' + ','.join(term_text(a) for a in t[2]) + ')'
+    if k == 'SL':
+        return atom_text(t[1]) + '/' + t[2]          # term : ATOM '/' NUMERAL
     if k == 'L':
         return '[' + ','.join(term_text(a) for a in t[1]) + ']'
     if k == 'P':
@@ -88,6 +93,8 @@ def body_text(b, parens='min', rnd=None):
         k = b[0]
         if k == 'call':
             return goal_text(b)
+        if k == 'ncall':
+            return b[1] + '(' + ','.join(term_text(a) for a in b[2]) + ')'
         if k == 'neg':
             a = b[1]
             return '\\+ ' + wrap(go(a), a, body_prec(a) < 4)
